@@ -1629,8 +1629,17 @@ func runRootHandle(t *testing.T, prop string) {
 // shuts the provider down) calls Close again while the first call is still on
 // the stack: "calling Close again returns nil and closes nothing a second
 // time" - the call returns; it cannot wait for the Close it is part of.
-func TestC12Reentrant(t *testing.T) {
-	col := evid.New("C12", "close-from-inside-close", "configurations biased to disposable services in which the Close methods of a generated subset of registrations call Close on the scope that owns the instance (the provider for singletons) or on the provider; sequential histories without closes, then every scope (in a generated order) and the provider are closed by the harness, each call bounded by 10 s; oracle: every call - the harness's and the ones made from inside a Close method - returns (no hang) without panicking; a call made from inside a Close method on the scope or provider whose disposal is running that method returns nil; in the end every instance has received exactly one Close call; non-trivial = a Close method that calls Close ran")
+func TestC12Reentrant(t *testing.T) { runReentrant(t, "C12") }
+
+// TestC10Reentrant / TestC13Reentrant: the same programs seen from the instances (C10: a scope
+// that a Close method closes - an enclosing one, not yet closing - closes what it owns) and
+// from the scope that was closed that way (C13: it refuses use once that Close has returned; no
+// call hangs).
+func TestC10Reentrant(t *testing.T) { runReentrant(t, "C10") }
+func TestC13Reentrant(t *testing.T) { runReentrant(t, "C13") }
+
+func runReentrant(t *testing.T, prop string) {
+	col := evid.New(prop, "close-from-inside-close", "configurations biased to disposable services in which the Close methods of a generated subset of registrations call Close on the scope that owns the instance (the provider for singletons), on an enclosing scope or on the provider; sequential histories without closes, then every scope (in a generated order) and the provider are closed by the harness, each call bounded by 10 s; oracle: every call - the harness's and the ones made from inside a Close method - returns (no hang) without panicking; a call made from inside a Close method on the scope or provider whose disposal is running that method returns nil; a call made from inside a Close method on an enclosing scope that was not closing closes that scope: when it returns the scope refuses use and everything it owns has been closed (except what is closing up the stack); in the end every instance has received exactly one Close call; non-trivial = a Close method that calls Close ran")
 	defer col.Flush()
 	rapid.Check(t, func(rt *rapid.T) {
 		cfg := kit.GenConfig(rt, dispOpts())
@@ -1638,7 +1647,7 @@ func TestC12Reentrant(t *testing.T) {
 		x, err := startRunWith(cfg, nil, func(w *kit.World) {
 			for _, r := range w.Cfg.Regs {
 				if r.Form != kit.FormInstance && rapid.IntRange(0, 2).Draw(rt, "closes") == 0 {
-					mode[r.ID] = rapid.IntRange(1, 2).Draw(rt, "what") // 1 its own scope, 2 the provider
+					mode[r.ID] = rapid.IntRange(1, 3).Draw(rt, "what") // 1 its own scope, 2 the provider, 3 the scope above its own
 				}
 			}
 		})
@@ -1663,10 +1672,20 @@ func TestC12Reentrant(t *testing.T) {
 			if m == 2 || x.M.Regs[e.Reg].Life == kit.Singleton {
 				tag = 0
 			}
+			if m == 3 && tag != 0 {
+				if rec := x.R.ScopeRecOf(tag); rec != nil {
+					tag = rec.Parent
+				}
+			}
 			g := kit.Goid()
 			mu.Lock()
 			ran = true
 			reentrant := closing[g][tag]
+			wasOpen := false
+			if rec := x.R.ScopeRecOf(tag); tag != 0 && rec != nil && rec.S != nil {
+				_, gerr := rec.S.Get(kit.RType(kit.NeverType))
+				wasOpen = !kit.IsScopeDisposed(gerr) && !kit.IsDisposed(gerr)
+			}
 			mu.Unlock()
 			var cerr error
 			if tag == 0 {
@@ -1678,6 +1697,18 @@ func TestC12Reentrant(t *testing.T) {
 			inner = append(inner, fmt.Sprintf("Close() of %v called Close on s%d", e, tag))
 			if reentrant && cerr != nil && innerFail == nil {
 				innerFail = fail("C12", "idempotent", "reentrant-error", "Close() of %v called Close on s%d (0 = the provider), whose Close is running this very method; the call returned %v, want nil", e, tag, firstLine(cerr))
+			}
+			if tag != 0 && tag != e.ScopeTag && wasOpen && !reentrant && innerFail == nil {
+				// an enclosing scope that was open and is not closing up the stack: the call closed it
+				rec := x.R.ScopeRecOf(tag)
+				if _, gerr := rec.S.Get(kit.RType(kit.NeverType)); !kit.IsScopeDisposed(gerr) && !kit.IsDisposed(gerr) {
+					innerFail = fail("C13", "closed-after-return", "closed-from-a-close-method", "Close() of %v (scope s%d) called Close on the enclosing scope s%d, which was open; the call returned %v and s%d still accepts resolutions (%v)", e, e.ScopeTag, tag, cerr, tag, gerr)
+				}
+				for _, o := range x.W.AllEntries() {
+					if innerFail == nil && o.Inv != nil && o.Inv.Outcome == 1 && o.ScopeTag == tag && x.M.Regs[o.Reg].Life != kit.Singleton && kit.IsDisposable(o.Impl) && o.CloseCount() == 0 {
+						innerFail = fail("C10", "exactly-once", "leaked/closed-from-a-close-method", "Close() of %v (scope s%d) called Close on the enclosing scope s%d; the call returned and %v, owned by s%d, has not been closed", e, e.ScopeTag, tag, o, tag)
+					}
+				}
 			}
 			mu.Unlock()
 		}
@@ -1723,7 +1754,7 @@ func TestC12Reentrant(t *testing.T) {
 		outer(0, "the provider", x.R.P.Close)
 		x.R.PClosed = true
 		x.W.InClose = nil
-		canon := fmt.Sprintf("%s\nclose methods that call Close (1 = on their own scope, 2 = on the provider): %v; close order %v", x.describe(), mode, order)
+		canon := fmt.Sprintf("%s\nclose methods that call Close (1 = on their own scope, 2 = on the provider, 3 = on the scope above): %v; close order %v", x.describe(), mode, order)
 		mu.Lock()
 		if f == nil {
 			f = innerFail
